@@ -86,22 +86,38 @@ func genC02(o *hx.Out, tier string) {
 				o.Add(class, hx.ReadAll(cs, drw, nil, nil), "fread", "common", "-", hx.ChunksText(cs))
 			}
 			add("gate-valid", bs)
+			// the gate must not depend on how the transport splits the frame: every two-piece split
+			// of the valid frame, and a random segmentation of every fourth damaged variant
+			for cut := 1; cut < len(bs); cut++ {
+				cs := []hx.Chunk{{Data: bs[:cut]}, {Data: bs[cut:]}}
+				o.Add("gate-valid-split", hx.ReadAll(cs, drw, nil, nil), "fread", "common", "-", hx.ChunksText(cs))
+			}
+			nadd := 0
+			addv := func(class string, b []byte) {
+				nadd++
+				if nadd%4 == 0 {
+					cs := splitRandom(r, b)
+					o.Add(class+"-split", hx.ReadAll(cs, drw, nil, nil), "fread", "common", "-", hx.ChunksText(cs))
+					return
+				}
+				add(class, b)
+			}
 			for bit := 0; bit < len(bs)*8; bit++ {
 				c := append([]byte(nil), bs...)
 				c[bit/8] ^= 1 << uint(bit%8)
-				add("gate-bitflip", c)
+				addv("gate-bitflip", c)
 			}
 			for k := 0; k < 20; k++ {
 				c := append([]byte(nil), bs...)
 				c[r.Intn(len(c))] = byte(r.Intn(256))
-				add("gate-subst", c)
+				addv("gate-subst", c)
 			}
 			for k := 0; k < 20; k++ {
 				c := append([]byte(nil), bs...)
 				for j := 0; j < 2+r.Intn(4); j++ {
 					c[r.Intn(len(c))] ^= byte(1 + r.Intn(255))
 				}
-				add("gate-multi", c)
+				addv("gate-multi", c)
 			}
 		}
 	}
